@@ -134,13 +134,19 @@ func checkC02(c C02Case, r *Rec) *Violation {
 		// (d) the other ways of expressing the same subset give the same program
 		// (one of the six alternative spellings per mask, rotating with the case, so
 		// that every spelling meets every mask many times per run)
-		alt := int((hash64(src) + uint64(mask)) % (2 + directiveVariants))
+		alt := int((hash64(src) + uint64(mask)) % (2 + directiveVariants + 4))
 		how, variant := HowMapSparse, 0
 		switch alt {
 		case 1:
 			how = HowOptionFn
 		case 2, 3, 4, 5, 6, 7:
 			how, variant = HowDirective, alt-2
+		case 8, 9:
+			how, variant = HowDirectiveOpp, int(hash64(src)%uint64(directiveVariants))
+		case 10:
+			how = HowCopySet
+		case 11:
+			how = HowExtendSet
 		}
 		{
 			log := &Log{}
@@ -251,7 +257,7 @@ func checkC02(c C02Case, r *Rec) *Violation {
 
 var propC02 = Prop[C02Case]{
 	ID:    "C02",
-	Rule:  "typed random expression (all variables bound, failures from operators only) x cost map (incl. NaN/Inf/huge/negative) compiled under all 16 optimization subsets, each expressed four ways (full map, sparse map, Optimizations option, ;;;; directives in 4 spellings); oracles: pairwise equal values, R_eager value everywhere, R value without Reordering, identical Dump/DumpTable across the four ways, outcome = R/R_fast on the configuration's own Dump. Non-trivial = at least two of the 16 dumps differ from the unoptimized dump; distinct by source + binding + costs",
+	Rule:  "typed random expression (all variables bound, failures from operators only) x cost map (incl. NaN/Inf/huge/negative) compiled under all 16 optimization subsets, each expressed in several ways (full map, sparse map, Optimizations option, ;;;; directives in 6 spellings, the directive over a config that says the opposite, options set on a CopyConfig / ExtendConf copy of a config that says the opposite); oracles: pairwise equal values, R_eager value everywhere, R value without Reordering, identical Dump/DumpTable across the four ways, outcome = R/R_fast on the configuration's own Dump. Non-trivial = at least two of the 16 dumps differ from the unoptimized dump; distinct by source + binding + costs",
 	Gen:   genC02,
 	Check: checkC02,
 }
